@@ -79,6 +79,12 @@ reg("C16", "exploration", "value-type sweep with driven importance dictionaries 
     "quotients; variances and confidence bounds are checked against the formula on every state reached by PFI/SAGE streams.",
     "Non-empty dictionaries; quotients beyond float range excluded.", "DESIGN.md 3/C16")
 
+reg("C17", "fault_enumeration", "failpoints at every callback invocation of every call; snapshot equality + resumed exact C01 identity",
+    "For every explain_one call of generated streams the fault-free call's K callback invocations (model, loss, imputer, storage.update, storage.get_data) "
+    "are counted and each position k<=K is re-executed from the identical pre-state with an injected exception; propagation, unchanged public estimates "
+    "and the exact efficiency identity after resuming are asserted; random multi-fault schedules on top.",
+    "Single-fault space complete per generated (config, stream); configs/streams sampled; explainers deep-copyable.", "DESIGN.md 3/C17")
+
 def main():
     props = [json.loads(l) for l in open(os.path.join(HERE, "properties.jsonl"))]
     checks, na = [], []
